@@ -120,7 +120,16 @@ def _random(ctx: Ctx, n_cases: int, reserve: float):
         cap = rng.choice([1, 1, 2, 2, 3, 4, 16])
         reqs = S.gen_reqs(rng, B, n, batched_prob=0.15 if rng.random() < 0.3 else 0.0)
         batch = 0.35 if rng.random() < 0.35 else 0.0
-        sim = S.run_case(mode, reqs, B, cap, S.random_chooser(rng, batch), order_salt=seed & 0xFFFF)
+        chooser = S.random_chooser(rng, batch)
+        if rng.random() < 0.12:
+            # many small requests under a roomy budget, completed in waves: a long backlog behind the concurrency cap and
+            # several storage operations finishing in the same event-loop tick
+            n = rng.randint(4, 12)
+            reqs = [{"cost": 1, "buf": 1} for _ in range(n)] if rng.random() < 0.6 else S.gen_reqs(rng, 1, n)
+            B = rng.choice([16, 64])
+            chooser = S.waves_chooser() if rng.random() < 0.7 else S.random_chooser(rng, 0.5)
+            cap = rng.choice([1, 2, 2, 3])
+        sim = S.run_case(mode, reqs, B, cap, chooser, order_salt=seed & 0xFFFF)
         _check(ctx, "random", sim)
 
 
